@@ -62,6 +62,18 @@ def templates(tier="quick"):
         # from a fresh tree: kill the very first build; from a built tree: kill an incremental build
         T.append(scenario("c07/" + name + "/fresh", "c07", [v], ops=ops, init=[], depth=2, tags=["crash", "fresh"], builddir=bd))
         T.append(scenario("c07/" + name + "/built", "c07", [v], ops=ops, init=[plain], depth=d, tags=["crash", "built"], builddir=bd))
+    # a restat statement with recorded dependencies whose command, after a manifest change, reports one dependency more
+    # while leaving its output untouched (copy tool): the build-log record and the deps-log record are two appends
+    for kind in ("gcc", "msvc"):
+        def rv(name, hidden, kind=kind):
+            return Variant(name, [Stmt("obj", ex=["src"], hidden=hidden, deps=kind, restat=True, copy=True), Stmt("exe", ex=["obj"])])
+        v0, v1 = rv("v0", ["h1"]), rv("v1", ["h1", "h2"])
+        ops, plain, crash = _ops(v0)
+        ops = [{"op": "variant", "to": 1, "label": "manifest:=v1 (obj's command now also reads h2)"},
+               {"op": "edit", "path": "h2", "label": "edit h2"}] + ops
+        T.append(scenario("c07/restat_deps_%s_list_changes/built" % kind, "c07", [v0, v1], files={"h2": "h2-v0\n"}, ops=ops,
+                          init=[plain + 2], depth=d, tags=["crash", "built", "restat", "deps"]))
+
     # log recompaction: a build log with > 100 dead entries and a deps log with > 1000 dead records
     v = Variant("v0", [Stmt("obj", ex=["src"], hidden=["hdr"], deps="gcc"), Stmt("exe", ex=["obj"])])
     log = "# ninja log v7\n" + "".join("0\t1\t1700000000000000000\tdead%d\tabcdef%d\n" % (i, i) for i in range(130))
